@@ -22,10 +22,11 @@ SEM_OPS = (["acquire", "S"], ["acquire_nowait", "S"], ["release", "S"], ["pc", [
 
 
 class SemModel(Model):
-    def __init__(self, n=3, value=1, max=None, fast=False):
-        super().__init__(n=n, value=value, max=max, fast=fast)
+    def __init__(self, n=3, value=1, max=None, fast=False, adapter=False):
+        super().__init__(n=n, value=value, max=max, fast=fast, adapter=adapter)
         self.actors = ["A", "B", "C", "D"][:n]
-        self.objects = {"S": ["sem", {"value": value, "max": max, "fast": fast}]}
+        self.objects = {"S": ["sem", {"value": value, "max": max, "fast": fast,
+                                      "adapter": adapter}]}
         self.watch = ["S"]
         self.value = value
         self.max = max
@@ -211,10 +212,10 @@ def _tok(v):
 
 
 class LimModel(Model):
-    def __init__(self, n=3, total=1, totals=(0, 1, 2, "inf"), foreign=True):
-        super().__init__(n=n, total=total, totals=list(totals), foreign=foreign)
+    def __init__(self, n=3, total=1, totals=(0, 1, 2, "inf"), foreign=True, adapter=False):
+        super().__init__(n=n, total=total, totals=list(totals), foreign=foreign, adapter=adapter)
         self.actors = ["A", "B", "C", "D"][:n]
-        self.objects = {"M": ["lim", {"total": total}], "X": ["token"]}
+        self.objects = {"M": ["lim", {"total": total, "adapter": adapter}], "X": ["token"]}
         self.watch = ["M"]
         self.total = total
         self.totals = list(totals)
